@@ -5,6 +5,7 @@ import (
 	"fmt"
 	"os"
 	"path/filepath"
+	"regexp"
 	"sort"
 	"strings"
 	"time"
@@ -48,10 +49,37 @@ func (r *Report) finish(w *World, o *Options, start time.Time) int {
 	var violations []*Obligation
 	for _, f := range failures {
 		matched := false
-		for _, k := range known.Known {
-			if k.Property == o.property && k.Obligation == f.Name {
-				knownHit = append(knownHit, k)
+		cases := failingCases(f)
+		if len(cases) > 0 {
+			// a bounded audit that names its failing cases: known only if EVERY failing case is listed
+			listed := map[string]KnownFinding{}
+			for _, k := range known.Known {
+				if k.Obligation == f.Name && k.Case != "" && (k.Property == o.property || hasProp(f.Props, k.Property)) {
+					listed[k.Case] = k
+				}
+			}
+			all := true
+			var unlisted []string
+			for _, c := range cases {
+				if _, ok := listed[c]; !ok {
+					all = false
+					unlisted = append(unlisted, c)
+				}
+			}
+			if all {
+				for _, c := range cases {
+					knownHit = append(knownHit, listed[c])
+				}
 				matched = true
+			} else {
+				f.Output = "failing cases not listed as known findings: " + strings.Join(unlisted, ", ") + "\n" + f.Output
+			}
+		} else {
+			for _, k := range known.Known {
+				if k.Property == o.property && k.Obligation == f.Name && k.Case == "" {
+					knownHit = append(knownHit, k)
+					matched = true
+				}
 			}
 		}
 		if !matched {
@@ -62,6 +90,10 @@ func (r *Report) finish(w *World, o *Options, start time.Time) int {
 	replayDir := filepath.Join(o.verif, "replay", o.property)
 	var vrecs []map[string]interface{}
 	for _, k := range knownHit {
+		if k.Case != "" {
+			fmt.Printf("KNOWN-FINDING: property=%s %s (%s, case %s)\n", o.property, k.What, k.Obligation, k.Case)
+			continue
+		}
 		fmt.Printf("KNOWN-FINDING: property=%s %s (%s)\n", o.property, k.What, k.Obligation)
 	}
 	if len(violations) > 0 {
@@ -276,4 +308,23 @@ func truncate(s string, n int) string {
 		return s[:n] + "\n...[truncated]"
 	}
 	return s
+}
+
+// failingCases: the case ids a failed bounded audit printed ("bounded: CASE <audit>/<id>: ...", one line
+// per failing case; the audit goes on after a failing case).
+func failingCases(ob *Obligation) []string {
+	if ob.Kind != "bounded" {
+		return nil
+	}
+	re := regexp.MustCompile(`(?m)^bounded: CASE ` + regexp.QuoteMeta(strings.TrimPrefix(ob.Name, "bounded:")) + `/(\S+):`)
+	seen := map[string]bool{}
+	var out []string
+	for _, m := range re.FindAllStringSubmatch(ob.Output, -1) {
+		if !seen[m[1]] {
+			seen[m[1]] = true
+			out = append(out, m[1])
+		}
+	}
+	sort.Strings(out)
+	return out
 }
